@@ -34,7 +34,7 @@ def diff_keys(a, b, prefix=None):
     return ks
 
 
-CONFIGS = ['sir_tabdeaths', 'sis_tx2', 'sir_mf', 'sis_static', 'sir_er_deaths', 'sir_preg', 'sis_pool', 'hiv_mf_vx', 'measles_day', 'sir_births', 'sir_random_odd', 'ncd', 'sir_random_even']
+CONFIGS = ['sir_tabdeaths', 'sis_tx2', 'sir_userdists', 'sir_mf', 'sis_static', 'sir_er_deaths', 'sir_preg', 'sis_pool', 'hiv_mf_vx', 'measles_day', 'sir_births', 'sir_random_odd', 'ncd', 'sir_random_even']
 
 def make_sim(kind, seed, n=200, dur=8, extra=None, variant=0):
     """the configuration grid (extra: dict of additional module lists merged in)"""
@@ -51,6 +51,14 @@ def make_sim(kind, seed, n=200, dur=8, extra=None, variant=0):
         df = pd.DataFrame([dict(name='x', disease='sis', state='infected', efficacy=0.7 + 0.05 * variant, post_state='susceptible'), dict(name='x', disease='sis', state='susceptible', efficacy=0.5, post_state='susceptible')])
         trt = ss.treat_num(product=ss.Tx(df), prob=0.6, max_capacity=20, eligibility=lambda sim: sim.people.auids, name='trt')
         return ss.Sim(diseases=L('diseases', [ss.SIS(beta=0.1, init_prev=0.3)]), networks=L('networks', [ss.StaticNet()]), interventions=L('interventions', [trt]), analyzers=L('analyzers', []), **kw)
+    if kind == 'sir_userdists':
+        # the user holds distribution objects (created stand-alone, non-strict) and keeps using them between sims
+        global _USER_DISTS
+        try: _USER_DISTS
+        except NameError: _USER_DISTS = dict(w=ss.weibull(c=2.0, scale=8.0, strict=False), g=ss.gamma(a=2.0, scale=3.0, strict=False))
+        _USER_DISTS['w'].rvs(3); _USER_DISTS['g'].rvs(5)       # stand-alone use, every time a sim is built
+        return ss.Sim(diseases=L('diseases', [ss.SIR(beta={'mf': [0.3, 0.2]}, init_prev=0.2, dur_inf=_USER_DISTS['w']), ss.SIS(beta={'mf': [0.2, 0.2]}, dur_inf=_USER_DISTS['g'])]), networks=L('networks', [ss.MFNet()]),
+                      analyzers=L('analyzers', []), interventions=L('interventions', []), **kw)
     if kind == 'sir_mf': return ss.Sim(diseases=L('diseases', [ss.SIR(beta={'mf': [0.3, 0.2]}, init_prev=0.1)]), networks=L('networks', [ss.MFNet()]), analyzers=L('analyzers', []), interventions=L('interventions', []), **kw)
     if kind == 'sis_static': return ss.Sim(diseases=L('diseases', [ss.SIS(beta=0.1)]), networks=L('networks', [ss.StaticNet()]), analyzers=L('analyzers', []), interventions=L('interventions', []), **kw)
     if kind == 'sir_er_deaths': return ss.Sim(diseases=L('diseases', [ss.SIR(beta=0.2, p_death=0.2)]), networks=L('networks', [ss.ErdosRenyiNet()]), demographics=[ss.Deaths(death_rate=30)], analyzers=L('analyzers', []), interventions=L('interventions', []), **kw)
